@@ -247,14 +247,14 @@ theorem alnum_not_sep {ch : Char} (h : isAsciiAlnum ch = true) :
     rcases hs with (rfl | rfl) | rfl <;> exact absurd h (by decide)
 
 /-- the loop of `parse_name` consumes exactly the remaining name chars `tl` -/
-theorem parseNameLoop_accept (fuel : Nat) (input : List Char) (tl rest : List Char) (pos : Nat)
+theorem parseNameLoop_accept (env : ProcEnv) (fuel : Nat) (input : List Char) (tl rest : List Char) (pos : Nat)
     (acc : List Char) (start : Nat) (n : List Nat)
     (hall : ∀ ch ∈ tl, isNameChar ch = true)
     (hlast : ∀ ch, (acc ++ tl).getLast? = some ch → isAsciiAlnum ch = true)
     (hrest : ∀ ch, rest.head? = some ch → isNameChar ch = false)
     (hv : Names.validateOwned (bytesOfChars (acc ++ tl)) = some n)
     (hf : tl.length < fuel) :
-    parseNameLoop fuel ⟨input, tl ++ rest, pos⟩ acc start = .ok (n, ⟨input, rest, pos + strLen tl⟩) := by
+    parseNameLoop env fuel ⟨input, tl ++ rest, pos⟩ acc start = .ok (n, ⟨input, rest, pos + strLen tl⟩) := by
   induction fuel generalizing tl pos acc with
   | zero => omega
   | succ fuel ih =>
@@ -307,7 +307,7 @@ theorem parseName_accept_of_valid (env : ProcEnv) (pre name rest : List Char) (n
     have h0 := hfirst ch rfl
     unfold parseName
     simp only [List.cons_append, Cursor.next, h0, if_true]
-    rw [parseNameLoop_accept _ _ tl rest _ [ch] _ n]
+    rw [parseNameLoop_accept env _ _ tl rest _ [ch] _ n]
     · simp only [strLen_cons, Nat.add_assoc]
     · intro c hc; exact hall c (List.mem_cons_of_mem _ hc)
     · intro c hc; exact hlast c (by simpa using hc)
@@ -472,12 +472,12 @@ theorem parseName_accept (env : ProcEnv) (pre name rest : List Char)
   parseName_accept_of_valid env pre name rest _ hne hfirst hall hlast hrest
     (name_validates name hne hfirst hall hlast).2
 
-/-! ### B.2 is false: leading whitespace changes the diagnosis
+/-! ### B.2: leading whitespace (after F19)
 
-`parse_pep508_requirement` records `start = cursor.pos()` *before* skipping the leading whitespace and
-later runs `looks_like_unnamed_requirement` on a clone positioned at `start`; with leading whitespace
-that clone reads an empty path, so the "unsupported (unnamed) requirement" diagnosis degrades to the
-generic "expected one of …" string error. -/
+Before F19 `parse_pep508_requirement` ran `looks_like_unnamed_requirement` on a clone positioned
+*before* the leading whitespace, where the non-whitespace token is empty, so ` a/b` got the generic
+"expected one of …" error while `a/b` got the unsupported-requirement one (this file used to prove
+that difference, `leading_ws_changes_outcome`).  The code now rewinds to the start of the name. -/
 
 theorem parseName_a (env : ProcEnv) (pre rest : List Char)
     (hrest : ∀ ch, rest.head? = some ch → isNameChar ch = false) :
@@ -486,10 +486,11 @@ theorem parseName_a (env : ProcEnv) (pre rest : List Char)
   parseName_accept env pre ['a'] rest (by simp) (by intro ch h; simp at h; subst h; decide)
     (by intro ch h; simp at h; subst h; decide) (by intro ch h; simp at h; subst h; decide) hrest
 
-/-- counterexample to whitespace-independence of the top level: `a/b` vs ` a/b` -/
-theorem leading_ws_changes_outcome (env : ProcEnv) (x : Ext) :
+/-- the former counterexample to whitespace-independence: `a/b` and ` a/b` now get the same
+diagnosis; the span starts at the beginning of the input and ends with the token -/
+theorem leading_ws_same_outcome (env : ProcEnv) (x : Ext) :
     (parseRequirement env x ['a', '/', 'b']).fin = .err ⟨.unsupported, 0, 3⟩ ∧
-    (parseRequirement env x [' ', 'a', '/', 'b']).fin = .err ⟨.string, 2, 1⟩ := by
+    (parseRequirement env x [' ', 'a', '/', 'b']).fin = .err ⟨.unsupported, 0, 4⟩ := by
   constructor
   · rw [parseRequirement_eq]
     have h1 : (Cursor.new ['a', '/', 'b']).eatWhitespace =
